@@ -1,5 +1,5 @@
 use crate::distributions::*;
-use crate::functions::binom_coeff;
+use crate::functions::ln_gamma;
 
 /// Implements the [Binomial](https://en.wikipedia.org/wiki/https://en.wikipedia.org/wiki/Binomial_distribution)
 /// distribution with trials `n` and probability of success `p`.
@@ -295,9 +295,24 @@ impl Discrete for Binomial {
     /// distribution at `k`.
     ///
     fn pmf(&self, k: i64) -> f64 {
-        binom_coeff(self.n, k as u64) as f64
-            * self.p.powi(k as i32)
-            * (1. - self.p).powi((self.n - k as u64) as i32)
+        // no mass outside 0..=n
+        if k < 0 || k as u64 > self.n {
+            return 0.;
+        }
+        // degenerate cases, where the logarithms below are infinite
+        if self.p == 0. {
+            return if k == 0 { 1. } else { 0. };
+        }
+        if self.p == 1. {
+            return if k as u64 == self.n { 1. } else { 0. };
+        }
+        // C(n, k) p^k (1-p)^(n-k) in log space: the integer coefficient only fits 64 bits up to
+        // n = 67
+        let (n, k) = (self.n as f64, k as f64);
+        (ln_gamma(n + 1.) - ln_gamma(k + 1.) - ln_gamma(n - k + 1.)
+            + k * self.p.ln()
+            + (n - k) * (-self.p).ln_1p())
+        .exp()
     }
 }
 
